@@ -1,3 +1,4 @@
+CONSTANT Mechanism = "native"
 SPECIFICATION Spec
 CONSTRAINT Progress
 POSTCONDITION Post
